@@ -19,7 +19,7 @@ from ..sim import fs_tree as T
 
 ID = "C02"
 READY = True
-LEAN_TARGETS = ["NauyacaVerif.Props.C02", "NauyacaVerif.Props.Translated"]
+LEAN_TARGETS = ["NauyacaVerif.Props.C02", "NauyacaVerif.Props.Tr.CanonicalPath"]
 THEOREMS = [f"NauyacaVerif.C02.{t}" for t in (
     "static_contained", "static_contained_url", "static_no_leak", "static_reads", "static_complete_os", "static_complete", "static_complete_tree",
     "pctDecode_pctEncode", "utf8Dec_utf8Enc", "canon_segments_clean", "index_rechecked", "metas_tie", "single_read_tie")]
